@@ -1227,16 +1227,21 @@ func (l *Lowerer) buildOverrideInitExpr(expr parser.Expr) ir.OverrideInitExpr {
 		// Handle integer literals (may have suffix)
 		if e.Kind == parser.TokenIntLiteral {
 			s := e.Value
-			isUnsigned := false
+			isUnsigned, isSigned := false, false
 			if len(s) > 0 && s[len(s)-1] == 'u' {
 				isUnsigned = true
 				s = s[:len(s)-1]
 			} else if len(s) > 0 && s[len(s)-1] == 'i' {
+				isSigned = true
 				s = s[:len(s)-1]
 			}
 			if ival, err := strconv.ParseInt(s, 0, 64); err == nil {
 				if isUnsigned {
 					return ir.OverrideInitUintLiteral{Value: uint32(ival)}
+				}
+				if isSigned {
+					// keeps 7i / 2i an integer division when the override is resolved
+					return ir.OverrideInitIntLiteral{Value: int32(ival)}
 				}
 				return ir.OverrideInitLiteral{Value: float64(ival)}
 			}
@@ -16514,6 +16519,9 @@ func (l *Lowerer) buildOverrideGlobalExpr(
 
 	case ir.OverrideInitUintLiteral:
 		return addExpr(ir.Literal{Value: ir.LiteralU32(e.Value)})
+
+	case ir.OverrideInitIntLiteral:
+		return addExpr(ir.Literal{Value: ir.LiteralI32(e.Value)})
 
 	case ir.OverrideInitRef:
 		// Reference to another override -> Override expression.
